@@ -217,7 +217,7 @@ fn n_lines(body: &[u8]) -> usize {
 
 fn scenarios(tier: Tier) -> Vec<Scenario> {
     let mut v: Vec<Scenario> = vec![];
-    let base = |class: &str, kind: Kind, scripts: Vec<Script>| Scenario { class: class.into(), kind, scripts, cancel_after: None, preexisting: None, broken_dirs: 0, then: None, timeout_ms: 5000 };
+    let base = |class: &str, kind: Kind, scripts: Vec<Script>| Scenario { class: class.into(), kind, scripts, cancel_after: None, preexisting: None, broken_dirs: 0, then: None, timeout_ms: 60_000 };
     let bodies: Vec<Vec<u8>> = if tier == Tier::Thorough {
         vec![BODY.to_vec(), BODY.iter().map(|&b| b).chain(b"FUNC 3000 10 0 other\n3000 10 7 1\n".iter().copied()).collect(), b"MODULE a b c d\nPUBLIC 10 0 x\n".to_vec()]
     } else {
